@@ -49,3 +49,24 @@ Check C06_filter_rule :
                            end.
 Check (eq_refl : distinct_ids = fun fs k =>
          exists ids, NoDup ids /\ (forall i, In i ids <-> exists f, In f fs /\ fid f = i) /\ length ids = k).
+
+From FV Require WalkModel WalkProofs6.
+Check C06_spelling_only_through_absolute :
+  forall sel_file sel_dir ign1 (t : WalkModel.tree) (c : WalkModel.config) sched roots1 roots2,
+    map (WalkModel.absolute t) roots1 = map (WalkModel.absolute t) roots2 ->
+    WalkModel.walk sel_file sel_dir ign1 t c sched roots1 = WalkModel.walk sel_file sel_dir ign1 t c sched roots2 /\
+    WalkModel.scan sel_file sel_dir ign1 t c sched roots1 = WalkModel.scan sel_file sel_dir ign1 t c sched roots2.
+Check C06_spelling_dot :
+  forall (t : WalkModel.tree) raw p,
+    WalkModel.canon t raw = Some p -> WalkProofs6.dir_at t p ->
+    WalkModel.absolute t (raw ++ [WalkModel.dot]) = WalkModel.absolute t raw.
+Check C06_spelling_subdir_dotdot :
+  forall (t : WalkModel.tree) raw x p,
+    WalkModel.canon t raw = Some p -> WalkProofs6.dir_at t p -> WalkProofs6.dir_at t (p ++ [x]) ->
+    WalkModel.comp_eqb x WalkModel.dot = false -> WalkModel.comp_eqb x WalkModel.dotdot = false ->
+    WalkModel.absolute t (raw ++ [x; WalkModel.dotdot]) = WalkModel.absolute t raw.
+Check C06_spelling_same_canonical_directory :
+  forall (t : WalkModel.tree) raw1 raw2 p,
+    WalkModel.canon t raw1 = Some p -> WalkModel.canon t raw2 = Some p -> WalkProofs6.dir_at t p ->
+    WalkModel.absolute t raw1 = WalkModel.absolute t raw2.
+Check (eq_refl : WalkProofs6.dir_at = fun t p => exists nd, WalkModel.lookup t p = Some nd /\ WalkModel.n_kind nd = WalkModel.KDir).
